@@ -1,6 +1,8 @@
 // hashtool is the fallback hash oracle of the equational TLA+ specifications:
 // TLC calls it (IOExec) for a hash input that is not in the recorded table.
-//   hashtool <in.json> <out.json>     in.json = [alg, outLen, [input bytes]]
+//
+//	hashtool <in.json> <out.json>     in.json = [alg, outLen, [input bytes]]
+//
 // It uses crypto/sha256 and golang.org/x/crypto/sha3 directly.
 package main
 
